@@ -47,6 +47,9 @@ theorem template_eos_values (hq : q.WF) (ht : IsTemplateOf t q.hydro) {Tp : ℝ}
     t.pN + ((WG.R.rpow (Tp / t.Tnucl) t.mu - 1) * t.wN) / t.mu = q.hydro.pHighT Tp :=
   ⟨wH_scale hq ht hTp, pH_scale hq ht hTp⟩
 
+example : ∃ (q : TPar) (t : TemplP) (Tp : ℝ), q.WF ∧ IsTemplateOf t q.hydro ∧ 0 ≤ Tp :=
+  ⟨q0, t0, 2, q0_WF, t0_isTemplate, by norm_num⟩
+
 /-- T15.1d. Given the same matching `(v₊, v₋, T₊, T₋)`, the template and the general
 `findHydroBoundaries` return the same `(c1, c2, T₊, T₋, velocityMid)`. -/
 theorem boundaries_agree (hq : q.WF) (ht : IsTemplateOf t q.hydro) (vp vm : ℝ) {Tp : ℝ} (hTp : 0 ≤ Tp)
@@ -91,6 +94,11 @@ theorem rarefaction_initial_enthalpy (hq : q.WF) (ht : IsTemplateOf t q.hydro) {
   rw [← wH_scale hq ht hTp] at E
   field_simp
   linear_combination E
+
+example : ∃ (q : TPar) (t : TemplP) (vp vm Tp : ℝ), q.WF ∧ IsTemplateOf t q.hydro ∧
+    0 < vp ∧ vp < 1 ∧ 0 < vm ∧ vm < 1 ∧ 0 ≤ Tp :=
+  ⟨q0, t0, 9 / 10, 7 / 10, 1, q0_WF, t0_isTemplate, by norm_num, by norm_num, by norm_num, by norm_num,
+    by norm_num⟩
 
 /-! ## T15.3  `getVp` and the second junction condition -/
 
@@ -158,5 +166,458 @@ theorem getVp_findTm_junction (hq : q.WF) (ht : IsTemplateOf t q.hydro) {vm Tp b
   have h2 : 1 - vm ^ 2 ≠ 0 := by nlinarith
   refine ⟨E, (momentum_iff_alpha hq ht h1 hvm.ne' h2 hTp E).mpr ?_⟩
   exact (vpQuad_iff_alpha hvm.ne' (cb2_pos hq ht).ne' h1).mp (getVp_root hA hd hb)
+
+
+example : ∃ (q : TPar) (t : TemplP) (vm Tp b : ℝ), q.WF ∧ IsTemplateOf t q.hydro ∧ 0 < vm ∧ vm < 1 ∧
+    0 < Tp ∧ b ^ 2 = 1 ∧ vm + 3 * t.cb2 * vm * q.alphaAt Tp ≠ 0 ∧ 0 ≤ vpDisc t.cb2 vm (q.alphaAt Tp) ∧
+    0 < getVp t vm (q.alphaAt Tp) b ∧ getVp t vm (q.alphaAt Tp) b < 1 := by
+  have hd : vpDisc t0.cb2 (1 / 2) (1 / 30) = 109 / 3600 := by rw [t0_cb2]; norm_num [vpDisc]
+  have hd0 : 0 ≤ vpDisc t0.cb2 (1 / 2) (1 / 30) := by rw [hd]; norm_num
+  have hs0 := Real.sqrt_nonneg (109 / 3600 : ℝ)
+  have hs1 : Real.sqrt (109 / 3600 : ℝ) < 1 / 2 := by
+    rw [Real.sqrt_lt' (by norm_num)]; norm_num
+  have hv : getVp t0 (1 / 2) (1 / 30) (-1)
+      = (1 / 2 : ℝ) * (1 / 3 + (1 / 2) ^ 2 + -1 * Real.sqrt (109 / 3600)) / (31 / 60) := by
+    rw [getVp_eq hd0, hd, t0_cb2]; norm_num
+  refine ⟨q0, t0, 1 / 2, 1, -1, q0_WF, t0_isTemplate, by norm_num, by norm_num, by norm_num,
+    by norm_num, ?_, ?_, ?_, ?_⟩
+  · rw [q0_alphaAt_one, t0_cb2]; norm_num
+  · rw [q0_alphaAt_one]; exact hd0
+  · rw [q0_alphaAt_one, hv]; apply div_pos _ (by norm_num); nlinarith
+  · rw [q0_alphaAt_one, hv, div_lt_one (by norm_num)]; nlinarith
+
+/-! ## T15.3'  `findMatching` (deflagration / hybrid branch): the closed forms satisfy the general junction
+conditions up to the `1e-100` regulators of `wFromAlpha` -/
+
+/-- T15.3'a. For the quadruple `(v₊, v₋, T₊, T₋)` returned by the template `findMatching` (deflagration /
+hybrid branch, after the root `v₊` is known) energy-flux conservation of the general solver holds exactly. -/
+theorem deflag_energy_flux (hq : q.WF) (ht : IsTemplateOf t q.hydro) {vp vm : ℝ}
+    (hvp : 0 < vp) (hvp1 : vp < 1) (hvm : 0 < vm) (hvm1 : vm < 1)
+    (hw : 0 ≤ wFromAlpha t (alphaCode vp vm t.cb2)) :
+    let r := deflagTpTm t vm vp
+    r.1 = vp ∧ r.2.1 = vm ∧
+    q.hydro.wHighT r.2.2.1 * gammaSq vp * vp = q.hydro.wLowT r.2.2.2 * gammaSq vm * vm := by
+  intro r
+  refine ⟨rfl, rfl, ?_⟩
+  have hT : 0 ≤ t.Tnucl * WG.R.rpow (wFromAlpha t (alphaCode vp vm t.cb2)) (1 / t.mu) := by
+    rw [Tnucl_eq ht]; exact mul_nonneg hq.Tn_pos.le (Real.rpow_nonneg hw _)
+  exact findTm_energyFlux hq ht hvp hvp1 hvm hvm1 hT
+
+example : ∃ (q : TPar) (t : TemplP) (vp vm : ℝ), q.WF ∧ IsTemplateOf t q.hydro ∧ 0 < vp ∧ vp < 1 ∧
+    0 < vm ∧ vm < 1 ∧ 0 ≤ wFromAlpha t (alphaCode vp vm t.cb2) := by
+  refine ⟨q0, t0, 3 / 10, 1 / 2, q0_WF, t0_isTemplate, by norm_num, by norm_num, by norm_num,
+    by norm_num, le_of_lt (wFromAlpha_pos ?_)⟩
+  rw [t0_wNum, t0_wDen, t0_cb2]; norm_num [alphaCode]
+
+/-- `wFromAlpha` is positive when `N = (1−3αN)μ−ν` and `D = (1−3α₊)μ−ν` have the same non-zero sign. -/
+theorem wFromAlpha_positive {al : ℝ} (h : 0 < wNum t * wDen t al) : 0 < wFromAlpha t al :=
+  wFromAlpha_pos h
+
+example : ∃ (t : TemplP) (al : ℝ), 0 < wNum t * wDen t al :=
+  ⟨t0, 1 / 10, by rw [t0_wNum, t0_wDen]; norm_num⟩
+
+/-- T15.3'b. Momentum-flux defect of the template `findMatching` quadruple in the general junction
+condition, exactly: `−wN/(μν)·(D·w₊ − N)` where `w₊ = wFromAlpha(α₊)` is the *regularised* ratio and
+`N/D` the exact one. (It vanishes iff `D·w₊ = N`.) -/
+theorem deflag_momentum_defect (hq : q.WF) (ht : IsTemplateOf t q.hydro) {vp vm : ℝ}
+    (hvp : 0 < vp) (hvp1 : vp < 1) (hvm : 0 < vm) (hvm1 : vm < 1)
+    (hND : 0 < wNum t * wDen t (alphaCode vp vm t.cb2)) :
+    let r := deflagTpTm t vm vp
+    (q.hydro.wHighT r.2.2.1 * gammaSq vp * vp ^ 2 + q.hydro.pHighT r.2.2.1)
+      - (q.hydro.wLowT r.2.2.2 * gammaSq vm * vm ^ 2 + q.hydro.pLowT r.2.2.2)
+      = - (t.wN / (q.mu * q.nu))
+          * (wDen t (alphaCode vp vm t.cb2) * wFromAlpha t (alphaCode vp vm t.cb2) - wNum t) := by
+  intro r
+  have hwp := wFromAlpha_pos hND
+  have E := (deflag_energy_flux hq ht hvp hvp1 hvm hvm1 hwp.le).2.2
+  have h1 : 1 - vp ^ 2 ≠ 0 := by nlinarith
+  have h2 : 1 - vm ^ 2 ≠ 0 := by nlinarith
+  exact momentum_defect_TpOfW hq ht h1 hvm.ne' h2 hwp E
+
+example : ∃ (q : TPar) (t : TemplP) (vp vm : ℝ), q.WF ∧ IsTemplateOf t q.hydro ∧ 0 < vp ∧ vp < 1 ∧
+    0 < vm ∧ vm < 1 ∧ 0 < wNum t * wDen t (alphaCode vp vm t.cb2) := by
+  refine ⟨q0, t0, 3 / 10, 1 / 2, q0_WF, t0_isTemplate, by norm_num, by norm_num, by norm_num,
+    by norm_num, ?_⟩
+  rw [t0_wNum, t0_wDen, t0_cb2]; norm_num [alphaCode]
+
+/-- T15.3'c. Size of that defect: at most `1e-100 · wN/(μν) · (1 + |N/D|)`. So the template closed forms
+satisfy the general solver's second junction condition up to the `1e-100` regulators. -/
+theorem deflag_momentum_defect_le (hq : q.WF) (ht : IsTemplateOf t q.hydro) {vp vm : ℝ}
+    (hvp : 0 < vp) (hvp1 : vp < 1) (hvm : 0 < vm) (hvm1 : vm < 1)
+    (hND : 0 < wNum t * wDen t (alphaCode vp vm t.cb2)) :
+    let r := deflagTpTm t vm vp
+    |(q.hydro.wHighT r.2.2.1 * gammaSq vp * vp ^ 2 + q.hydro.pHighT r.2.2.1)
+      - (q.hydro.wLowT r.2.2.2 * gammaSq vm * vm ^ 2 + q.hydro.pLowT r.2.2.2)|
+      ≤ t.wN / (q.mu * q.nu) * ((1 / 10 ^ 100)
+          * (1 + |wNum t / wDen t (alphaCode vp vm t.cb2)|)) := by
+  intro r
+  have h := deflag_momentum_defect hq ht hvp hvp1 hvm hvm1 hND
+  simp only at h
+  rw [h, abs_mul, abs_neg]
+  have hpos : 0 < t.wN / (q.mu * q.nu) := by
+    have := wN_pos hq ht; have := hq.mu_gt; have := hq.nu_gt
+    positivity
+  rw [abs_of_pos hpos, ← reg_eq]
+  exact mul_le_mul_of_nonneg_left (wFromAlpha_defect_le hND) hpos.le
+
+example : ∃ (q : TPar) (t : TemplP) (vp vm : ℝ), q.WF ∧ IsTemplateOf t q.hydro ∧ 0 < vp ∧ vp < 1 ∧
+    0 < vm ∧ vm < 1 ∧ 0 < wNum t * wDen t (alphaCode vp vm t.cb2) := by
+  refine ⟨q0, t0, 3 / 10, 1 / 2, q0_WF, t0_isTemplate, by norm_num, by norm_num, by norm_num,
+    by norm_num, ?_⟩
+  rw [t0_wNum, t0_wDen, t0_cb2]; norm_num [alphaCode]
+
+/-- T15.3'd. Regulator-free variant: if `T₊ = Tn·w₊^{1/μ}` is built from an enthalpy ratio with
+`D·w₊ = N` exactly (`w₊ = N/D > 0`), then `(v₊, v₋, T₊, _findTm(…))` satisfies *both* junction conditions of
+the general solver exactly. -/
+theorem junction_of_exact_ratio (hq : q.WF) (ht : IsTemplateOf t q.hydro) {vp vm wp : ℝ}
+    (hvp : 0 < vp) (hvp1 : vp < 1) (hvm : 0 < vm) (hvm1 : vm < 1) (hwp : 0 < wp)
+    (hr : wDen t (alphaCode vp vm t.cb2) * wp = wNum t) :
+    let Tp := t.Tnucl * WG.R.rpow wp (1 / t.mu)
+    let Tm := findTm t vm vp Tp
+    q.hydro.wHighT Tp * gammaSq vp * vp = q.hydro.wLowT Tm * gammaSq vm * vm ∧
+    q.hydro.wHighT Tp * gammaSq vp * vp ^ 2 + q.hydro.pHighT Tp
+      = q.hydro.wLowT Tm * gammaSq vm * vm ^ 2 + q.hydro.pLowT Tm := by
+  intro Tp Tm
+  have hT := TpOfW_pos hq ht hwp
+  have E := findTm_energyFlux hq ht hvp hvp1 hvm hvm1 hT.le
+  have h1 : 1 - vp ^ 2 ≠ 0 := by nlinarith
+  have h2 : 1 - vm ^ 2 ≠ 0 := by nlinarith
+  refine ⟨E, ?_⟩
+  have := momentum_defect_TpOfW hq ht h1 hvm.ne' h2 hwp E
+  rw [hr, sub_self, mul_zero] at this
+  exact sub_eq_zero.mp this
+
+
+example : ∃ (q : TPar) (t : TemplP) (vp vm wp : ℝ), q.WF ∧ IsTemplateOf t q.hydro ∧ 0 < vp ∧ vp < 1 ∧
+    0 < vm ∧ vm < 1 ∧ 0 < wp ∧ wDen t (alphaCode vp vm t.cb2) * wp = wNum t := by
+  refine ⟨q0, t0, 3 / 10, 1 / 2, 91 / 220, q0_WF, t0_isTemplate, by norm_num, by norm_num, by norm_num,
+    by norm_num, by norm_num, ?_⟩
+  rw [t0_wNum, t0_wDen, t0_cb2]; norm_num [alphaCode]
+
+/-- T15.3'e. `_shooting(vw, v₊)` uses the same `v₋ = min(cb, vw)`, the same `α₊` formula and the same
+`w₊ = wFromAlpha(α₊)` as the final step of `findMatching`, whose `T₊` is `Tn·w₊^{1/μ}`. -/
+theorem shooting_uses_same_alpha (vw vp : ℝ) :
+    (shootAlpha t vw vp).1 = min t.cb vw ∧
+    (shootAlpha t vw vp).2.1 = alphaCode vp (min t.cb vw) t.cb2 ∧
+    (deflagTpTm t (min t.cb vw) vp).2.2.1
+      = t.Tnucl * WG.R.rpow (shootAlpha t vw vp).2.2 (1 / t.mu) := by
+  simp only [shootAlpha, deflagTpTm, WG.R.pmin_eq_min, alphaCode, and_self]
+
+/-! ## T15.4  Detonations -/
+
+/-- T15.4a. `detonationVAndT(vw)` returns `v₊ = vw`, `T₊ = Tn`, `T₋ = _findTm(v₋, vw, Tn)` and a `v₋` that
+is a root of `v₊ v₋² − part·v₋ + cb² v₊ = 0` (the larger one), provided `vw ≠ 0` and the square root is
+real. -/
+theorem detonation_vm_quadratic {vw : ℝ} (hvw : vw ≠ 0)
+    (hd : 0 ≤ detPart t vw ^ 2 - 4 * t.cb2 * vw ^ 2) :
+    let r := detonationVAndT t vw
+    r.1 = vw ∧ r.2.2.1 = t.Tnucl ∧ r.2.2.2 = findTm t r.2.1 vw t.Tnucl ∧
+    vw * r.2.1 ^ 2 - detPart t vw * r.2.1 + t.cb2 * vw = 0 :=
+  ⟨rfl, rfl, rfl, detVm_root hvw hd⟩
+
+example : ∃ (t : TemplP) (vw : ℝ), vw ≠ 0 ∧ 0 ≤ detPart t vw ^ 2 - 4 * t.cb2 * vw ^ 2 := by
+  refine ⟨t0, 9 / 10, by norm_num, ?_⟩
+  unfold detPart; rw [t0_cb2, t0_alN]; norm_num
+
+/-- T15.4b. That quadratic is the template matching relation with `α₊ = αN` (plasma unperturbed in front
+of a detonation). -/
+theorem detonation_quadratic_iff_alpha {vp vm : ℝ} (hvm : vm ≠ 0) (hcb : t.cb2 ≠ 0)
+    (hvp : 1 - vp ^ 2 ≠ 0) :
+    vp * vm ^ 2 - detPart t vp * vm + t.cb2 * vp = 0 ↔ t.alN = alphaCode vp vm t.cb2 :=
+  detQuad_iff_alpha hvm hcb hvp
+
+example : ∃ (t : TemplP) (vp vm : ℝ), vm ≠ 0 ∧ t.cb2 ≠ 0 ∧ 1 - vp ^ 2 ≠ 0 :=
+  ⟨t0, 9 / 10, 7 / 10, by norm_num, by rw [t0_cb2]; norm_num, by norm_num⟩
+
+/-- T15.4c. For `vw ≥ vJ` (the condition under which `findMatching` calls `detonationVAndT`) the square
+root is real and `cb ≤ v₋ < 1`. -/
+theorem detonation_well_defined (hq : q.WF) (ht : IsTemplateOf t q.hydro) (hnu : 2 < q.nu)
+    (hal : 0 ≤ t.alN) {vw : ℝ} (hJ : t.vJ ≤ vw) (hvw1 : vw < 1) :
+    0 ≤ detPart t vw ^ 2 - 4 * t.cb2 * vw ^ 2 ∧
+    t.cb ≤ (detonationVAndT t vw).2.1 ∧ (detonationVAndT t vw).2.1 < 1 :=
+  let h := det_side_conditions hq ht hnu hal hJ hvw1
+  ⟨h.2.1, h.2.2.1, h.2.2.2⟩
+
+example : ∃ (q : TPar) (t : TemplP) (vw : ℝ), q.WF ∧ IsTemplateOf t q.hydro ∧ 2 < q.nu ∧ 0 < t.alN ∧
+    t.vJ ≤ vw ∧ vw < 1 :=
+  ⟨q0, t0, (t0.vJ + 1) / 2, q0_WF, t0_isTemplate, by norm_num [q0], by rw [t0_alN]; norm_num,
+    by linarith [t0_vJ_lt_one], by linarith [t0_vJ_lt_one]⟩
+
+/-- T15.4d. The template detonation `(vw, v₋, Tn, T₋)` satisfies both junction conditions of the general
+solver on the template EOS, exactly. -/
+theorem detonation_junction (hq : q.WF) (ht : IsTemplateOf t q.hydro) (hnu : 2 < q.nu)
+    (hal : 0 ≤ t.alN) {vw : ℝ} (hJ : t.vJ ≤ vw) (hvw1 : vw < 1) :
+    let r := detonationVAndT t vw
+    q.hydro.wHighT r.2.2.1 * gammaSq r.1 * r.1 = q.hydro.wLowT r.2.2.2 * gammaSq r.2.1 * r.2.1 ∧
+    q.hydro.wHighT r.2.2.1 * gammaSq r.1 * r.1 ^ 2 + q.hydro.pHighT r.2.2.1
+      = q.hydro.wLowT r.2.2.2 * gammaSq r.2.1 * r.2.1 ^ 2 + q.hydro.pLowT r.2.2.2 := by
+  obtain ⟨hvw0, hd, hge, hlt⟩ := det_side_conditions hq ht hnu hal hJ hvw1
+  obtain ⟨hsq, hpos, -, h0, -, -⟩ := template_cb_facts hq ht hnu
+  have hvm0 : 0 < detVm t vw := lt_of_lt_of_le hpos hge
+  rw [detonationVAndT_eq]
+  simp only
+  rw [Tnucl_eq ht]
+  have E := findTm_energyFlux hq ht hvw0 hvw1 hvm0 hlt hq.Tn_pos.le
+  have h1 : 1 - vw ^ 2 ≠ 0 := by nlinarith
+  have h2 : 1 - detVm t vw ^ 2 ≠ 0 := by nlinarith
+  refine ⟨E, (momentum_iff_alpha hq ht h1 hvm0.ne' h2 hq.Tn_pos E).mpr ?_⟩
+  rw [alphaAt_Tn ht]
+  exact (detQuad_iff_alpha hvm0.ne' h0.ne' h1).mp (detVm_root hvw0.ne' hd)
+
+example : ∃ (q : TPar) (t : TemplP) (vw : ℝ), q.WF ∧ IsTemplateOf t q.hydro ∧ 2 < q.nu ∧ 0 < t.alN ∧
+    t.vJ ≤ vw ∧ vw < 1 :=
+  ⟨q0, t0, (t0.vJ + 1) / 2, q0_WF, t0_isTemplate, by norm_num [q0], by rw [t0_alN]; norm_num,
+    by linarith [t0_vJ_lt_one], by linarith [t0_vJ_lt_one]⟩
+
+/-- T15.4e. Consequently the template detonation is a solution of the *general* `matchDeton`: its `T₋` is a
+root of the residual `tmFromvpsq` that `matchDeton` solves, and the post-processing of `matchDeton`
+(`v₋ = √(v₊v₋ / (v₊/v₋))`) returns exactly the template quadruple. Needs `αN > 0` (otherwise `v₋ = v₊`
+and the general formula is `0/0`). -/
+theorem detonation_is_general_solution (hq : q.WF) (ht : IsTemplateOf t q.hydro) (hnu : 2 < q.nu)
+    (hal : 0 < t.alN) {vw : ℝ} (hJ : t.vJ ≤ vw) (hvw1 : vw < 1) :
+    let r := detonationVAndT t vw
+    tmFromvpsq q.hydro vw (q.hydro.pHighT q.hydro.Tnucl) (q.hydro.eHighT q.hydro.Tnucl) r.2.2.2 = 0 ∧
+    matchDetonPost q.hydro vw q.hydro.Tnucl r.2.2.2 = r := by
+  obtain ⟨hvw0, hd, hge, hlt⟩ := det_side_conditions hq ht hnu hal.le hJ hvw1
+  obtain ⟨hsq, hpos, -, h0, -, -⟩ := template_cb_facts hq ht hnu
+  have hvm0 : 0 < detVm t vw := lt_of_lt_of_le hpos hge
+  have hj := detonation_junction hq ht hnu hal.le hJ hvw1
+  rw [detonationVAndT_eq] at hj ⊢
+  simp only at hj ⊢
+  rw [Tnucl_eq ht] at hj ⊢
+  obtain ⟨E, M⟩ := hj
+  set Tm := findTm t (detVm t vw) vw q.Tn with hTm
+  have h1 : 1 - vw ^ 2 ≠ 0 := by nlinarith
+  have h2 : 1 - detVm t vw ^ 2 ≠ 0 := by nlinarith
+  have hne : vw ≠ detVm t vw := detVm_ne hvw0.ne' h1 h0.ne' hal.ne' hd
+  have hpm : 1 - vw * detVm t vw ≠ 0 := by nlinarith
+  have hw := (wH_pos hq hq.Tn_pos).ne'
+  have hV := vpvmAndvpovm_of_flux (s := q.hydro) (Tp := q.Tn) (Tm := Tm) rfl rfl hvw0.ne' hvm0.ne'
+    h1 h2 hne hpm hw E M
+  obtain ⟨f1, f2, f3, f4⟩ := flux_solved hvw0.ne' hvm0.ne' h1 h2 E M
+  have hg : gammaSq vw ≠ 0 := by unfold gammaSq; rw [← pow_two]; exact one_div_ne_zero h1
+  have hF : q.hydro.wHighT q.Tn * gammaSq vw * vw ≠ 0 := by positivity
+  constructor
+  · simp only [tmFromvpsq, hydro_Tnucl]
+    have e1 : q.hydro.eHighT q.Tn = q.hydro.wHighT q.Tn - q.hydro.pHighT q.Tn := rfl
+    rw [e1, f1, f2, f3, f4]
+    have : vw - detVm t vw ≠ 0 := sub_ne_zero.mpr hne
+    field_simp
+    ring
+  · simp only [matchDetonPost, hydro_Tnucl, hV]
+    have : vw * detVm t vw / (vw / detVm t vw) = detVm t vw ^ 2 := by field_simp
+    rw [this, Real.sqrt_sq hvm0.le, if_neg hvw1.ne]
+
+
+example : ∃ (q : TPar) (t : TemplP) (vw : ℝ), q.WF ∧ IsTemplateOf t q.hydro ∧ 2 < q.nu ∧ 0 < t.alN ∧
+    t.vJ ≤ vw ∧ vw < 1 :=
+  ⟨q0, t0, (t0.vJ + 1) / 2, q0_WF, t0_isTemplate, by norm_num [q0], by rw [t0_alN]; norm_num,
+    by linarith [t0_vJ_lt_one], by linarith [t0_vJ_lt_one]⟩
+
+/-- T15.3e. Link to the form the general solver actually uses: for an EOS with `e = w − p`, a state that
+conserves both fluxes has `vpvmAndvpovm = (v₊v₋, v₊/v₋)`, i.e. it solves `v₊v₋ = (p₊−p₋)/(e₊−e₋)` and
+`v₊/v₋ = (e₋+p₊)/(e₊+p₋)` — the two equations `matchDeflagOrHyb`/`matchDeton` solve. -/
+theorem general_vpvm_of_fluxes (hq : q.WF) {vp vm Tp Tm : ℝ}
+    (hvp : 0 < vp) (hvp1 : vp < 1) (hvm : 0 < vm) (hvm1 : vm < 1) (hne : vp ≠ vm) (hTp : 0 < Tp)
+    (E : q.hydro.wHighT Tp * gammaSq vp * vp = q.hydro.wLowT Tm * gammaSq vm * vm)
+    (M : q.hydro.wHighT Tp * gammaSq vp * vp ^ 2 + q.hydro.pHighT Tp
+          = q.hydro.wLowT Tm * gammaSq vm * vm ^ 2 + q.hydro.pLowT Tm) :
+    vpvmAndvpovm q.hydro Tp Tm = (vp * vm, vp / vm) :=
+  vpvmAndvpovm_of_flux (s := q.hydro) rfl rfl hvp.ne' hvm.ne' (by nlinarith) (by nlinarith) hne
+    (by nlinarith) (wH_pos hq hTp).ne' E M
+
+example : ∃ (q : TPar) (vp vm Tp Tm : ℝ), q.WF ∧ 0 < vp ∧ vp < 1 ∧ 0 < vm ∧ vm < 1 ∧ vp ≠ vm ∧ 0 < Tp ∧
+    q.hydro.wHighT Tp * gammaSq vp * vp = q.hydro.wLowT Tm * gammaSq vm * vm ∧
+    q.hydro.wHighT Tp * gammaSq vp * vp ^ 2 + q.hydro.pHighT Tp
+          = q.hydro.wLowT Tm * gammaSq vm * vm ^ 2 + q.hydro.pLowT Tm := by
+  -- the template detonation at `vw = (vJ + 1)/2`
+  have h1 : t0.vJ ≤ (t0.vJ + 1) / 2 := by linarith [t0_vJ_lt_one]
+  have h2 : (t0.vJ + 1) / 2 < 1 := by linarith [t0_vJ_lt_one]
+  have hal : 0 < t0.alN := by rw [t0_alN]; norm_num
+  have hnu : 2 < q0.nu := by norm_num [q0]
+  obtain ⟨hvw0, hd, hge, hlt⟩ := det_side_conditions q0_WF t0_isTemplate hnu hal.le h1 h2
+  obtain ⟨-, hpos, -, h0, -, -⟩ := template_cb_facts q0_WF t0_isTemplate hnu
+  have hj := detonation_junction q0_WF t0_isTemplate hnu hal.le h1 h2
+  rw [detonationVAndT_eq] at hj
+  have hv1 : 1 - ((t0.vJ + 1) / 2) ^ 2 ≠ 0 := by nlinarith
+  exact ⟨q0, (t0.vJ + 1) / 2, detVm t0 ((t0.vJ + 1) / 2), t0.Tnucl, _, q0_WF, hvw0, h2,
+    lt_of_lt_of_le hpos hge, hlt, detVm_ne hvw0.ne' hv1 h0.ne' hal.ne' hd,
+    by rw [t0_Tnucl]; norm_num, hj.1, hj.2⟩
+
+/-! ## T15.5  Chapman–Jouguet -/
+
+/-- T15.5a. At `vw = findJouguetVelocity(αN)` the discriminant `part² − 4 cb² v₊²` of the detonation branch
+vanishes. Hypotheses: `cb² = cb2`, `1 + 3cb²αN ≠ 0`, real square root in `vJ`. -/
+theorem jouguet_discriminant_zero (hcb : t.cb ^ 2 = t.cb2) (hK : 1 + 3 * t.cb2 * t.alN ≠ 0)
+    (hrad : 0 ≤ jRad t) :
+    detPart t (findJouguetVelocity t t.alN) ^ 2 - 4 * t.cb2 * findJouguetVelocity t t.alN ^ 2 = 0 :=
+  detDisc_at_vJ hcb hK hrad
+
+example : ∃ t : TemplP, t.cb ^ 2 = t.cb2 ∧ t.cb ≠ 0 ∧ 1 + 3 * t.cb2 * t.alN ≠ 0 ∧ 0 ≤ jRad t :=
+  ⟨t0, t0_cb_sq, t0_cb_pos.ne', by rw [t0_cb2, t0_alN]; norm_num, by rw [t0_jRad]; norm_num⟩
+
+/-- T15.5b. Chapman–Jouguet condition: at `vw = vJ` the template detonation has `v₋ = cb` (the sound
+speed behind the wall). -/
+theorem jouguet_vm_eq_cb (hcb : t.cb ^ 2 = t.cb2) (hcb0 : t.cb ≠ 0) (hK : 1 + 3 * t.cb2 * t.alN ≠ 0)
+    (hrad : 0 ≤ jRad t) :
+    (detonationVAndT t (findJouguetVelocity t t.alN)).2.1 = t.cb :=
+  detVm_at_vJ hcb hcb0 hK hrad
+
+example : ∃ t : TemplP, t.cb ^ 2 = t.cb2 ∧ t.cb ≠ 0 ∧ 1 + 3 * t.cb2 * t.alN ≠ 0 ∧ 0 ≤ jRad t :=
+  ⟨t0, t0_cb_sq, t0_cb_pos.ne', by rw [t0_cb2, t0_alN]; norm_num, by rw [t0_jRad]; norm_num⟩
+
+/-- T15.5c. On a template EOS with `0 < cb² < 1` (`ν > 2`) and `αN ≥ 0` those hypotheses hold, and
+`cb ≤ vJ < 1`. -/
+theorem jouguet_template (hq : q.WF) (ht : IsTemplateOf t q.hydro) (hnu : 2 < q.nu) (hal : 0 ≤ t.alN) :
+    detPart t t.vJ ^ 2 - 4 * t.cb2 * t.vJ ^ 2 = 0 ∧ (detonationVAndT t t.vJ).2.1 = t.cb ∧
+    t.cb ≤ t.vJ ∧ t.vJ < 1 := by
+  obtain ⟨hsq, hpos, hlt, h0, h1, -⟩ := template_cb_facts hq ht hnu
+  have hK : 0 < 1 + 3 * t.cb2 * t.alN := by positivity
+  have hrad := jRad_nonneg h0.le h1.le hal
+  rw [ht.vJ]
+  exact ⟨detDisc_at_vJ hsq hK.ne' hrad, detVm_at_vJ hsq hpos.ne' hK.ne' hrad,
+    vJ_ge_cb hpos.le h1.le h0.le hal, vJ_lt_one hsq hpos.le hlt hal⟩
+
+example : ∃ (q : TPar) (t : TemplP), q.WF ∧ IsTemplateOf t q.hydro ∧ 2 < q.nu ∧ 0 < t.alN :=
+  ⟨q0, t0, q0_WF, t0_isTemplate, by norm_num [q0], by rw [t0_alN]; norm_num⟩
+
+/-- T15.5d. The template Jouguet point solves the *general* solver's Jouguet equations: with
+`T₋ = _findTm(cb, vJ, Tn)` the numerator `vpDerivNum` of `d(v₊²)/dT₋` (whose root the general
+`findJouguetVelocity` searches) vanishes, and the general formula `jouguetVp` for `v₊` at that `T₋`
+returns the template `vJ`. -/
+theorem jouguet_general_condition (hq : q.WF) (ht : IsTemplateOf t q.hydro) (hnu : 2 < q.nu)
+    (hal : 0 < t.alN) :
+    let Tm := findTm t t.cb t.vJ t.Tnucl
+    vpDerivNum q.hydro (q.hydro.pHighT q.hydro.Tnucl) (q.hydro.eHighT q.hydro.Tnucl) Tm = 0 ∧
+    jouguetVp q.hydro (q.hydro.pHighT q.hydro.Tnucl) (q.hydro.eHighT q.hydro.Tnucl) Tm = t.vJ := by
+  obtain ⟨hsq, hpos, hlt, h0, h1, -⟩ := template_cb_facts hq ht hnu
+  obtain ⟨-, hvm, hcJ, hJ1⟩ := jouguet_template hq ht hnu hal.le
+  obtain ⟨hvw0, hd, -, -⟩ := det_side_conditions hq ht hnu hal.le le_rfl hJ1
+  have hj := detonation_junction hq ht hnu hal.le le_rfl hJ1
+  rw [detonationVAndT_eq] at hj hvm
+  simp only at hj hvm
+  rw [hvm, Tnucl_eq ht] at hj
+  obtain ⟨E, M⟩ := hj
+  intro Tm
+  have hTm : Tm = findTm t t.cb t.vJ q.Tn := by rw [← Tnucl_eq ht]
+  rw [← hTm] at E M
+  have h1' : 1 - t.vJ ^ 2 ≠ 0 := by nlinarith
+  have h2' : 1 - t.cb ^ 2 ≠ 0 := by nlinarith
+  have hne : t.vJ ≠ t.cb := by
+    have := detVm_ne hvw0.ne' h1' h0.ne' hal.ne' hd
+    rwa [hvm] at this
+  constructor
+  · have e1 : q.hydro.eHighT q.hydro.Tnucl = q.hydro.wHighT q.Tn - q.hydro.pHighT q.Tn := rfl
+    rw [e1, hydro_Tnucl, vpDerivNum_of_flux (s := q.hydro) rfl hvw0.ne' hpos.ne' h1' h2' E M]
+    have : q.hydro.deLowT Tm * t.cb ^ 2 - q.hydro.dpLowT Tm = 0 := by
+      have hn : q.nu - 1 ≠ 0 := by linarith
+      rw [hsq, cb2_eq ht]; simp only [TPar.hydro]; field_simp; ring
+    rw [this, mul_zero]
+  · obtain ⟨f1, f2, f3, f4⟩ := flux_solved hvw0.ne' hpos.ne' h1' h2' E M
+    have hg : gammaSq t.vJ ≠ 0 := by unfold gammaSq; rw [← pow_two]; exact one_div_ne_zero h1'
+    have hw := (wH_pos hq hq.Tn_pos).ne'
+    have hF : q.hydro.wHighT q.Tn * gammaSq t.vJ * t.vJ ≠ 0 := by positivity
+    have hd' : t.cb - t.vJ ≠ 0 := sub_ne_zero.mpr (Ne.symm hne)
+    have hpm : 1 - t.vJ * t.cb ≠ 0 := by nlinarith
+    simp only [jouguetVp, hydro_Tnucl]
+    have e1 : q.hydro.eHighT q.Tn = q.hydro.wHighT q.Tn - q.hydro.pHighT q.Tn := rfl
+    have e2 : q.hydro.eLowT Tm = q.hydro.wLowT Tm - q.hydro.pLowT Tm := rfl
+    rw [e1, e2, f1, f2, add_comm (q.hydro.pHighT q.Tn), f3, f4]
+    have : (q.hydro.wHighT q.Tn * gammaSq t.vJ * t.vJ * (t.cb - t.vJ)
+          * (q.hydro.wHighT q.Tn * gammaSq t.vJ * t.vJ * (1 - t.vJ * t.cb) / t.cb))
+          / (q.hydro.wHighT q.Tn * gammaSq t.vJ * t.vJ * (t.cb - t.vJ) / (t.vJ * t.cb))
+          / (q.hydro.wHighT q.Tn * gammaSq t.vJ * t.vJ * (1 - t.vJ * t.cb) / t.vJ) = t.vJ ^ 2 := by
+      generalize q.hydro.wHighT q.Tn * gammaSq t.vJ * t.vJ = F at hF
+      have := hpos.ne'; have := hvw0.ne'
+      have hpm' : 1 - t.cb * t.vJ ≠ 0 := by rw [mul_comm]; exact hpm
+      field_simp
+    rw [this, Real.sqrt_sq hvw0.le]
+
+example : ∃ (q : TPar) (t : TemplP), q.WF ∧ IsTemplateOf t q.hydro ∧ 2 < q.nu ∧ 0 < t.alN :=
+  ⟨q0, t0, q0_WF, t0_isTemplate, by norm_num [q0], by rw [t0_alN]; norm_num⟩
+
+/-! ## T15.6  The fluid equations agree -/
+
+/-- T15.6a. The `dξ/dv` equation integrated by the template solver (`_dxiAndWdv`) is literally the `dξ/dv`
+equation of the general solver (`shockDE`), in the shock wave (`true`, `cs²`) and in the rarefaction wave
+(`false`, `cb²`), for `v ≠ 0`. (At `v = 0` the template returns `1e50`, the general formula divides by
+zero.) -/
+theorem xi_equation_agrees (ht : IsTemplateOf t q.hydro) {v : ℝ} (hv : v ≠ 0)
+    (xi w T : ℝ) (b : Bool) :
+    (dxiAndWdv t v (xi, w) b).1 = (shockDE q.hydro v (xi, T) b).1 :=
+  dxiAndWdv_fst_eq hv b (cs2_eq ht) (cb2_eq ht)
+
+example : ∃ (q : TPar) (t : TemplP) (v : ℝ), IsTemplateOf t q.hydro ∧ v ≠ 0 :=
+  ⟨q0, t0, 1 / 10, t0_isTemplate, by norm_num⟩
+
+/-- T15.6b. The template's enthalpy equation is the general solver's temperature equation times
+`dw/dT = μ w/T` (shock wave; `ν w/T` in the rarefaction wave). -/
+theorem enthalpy_equation_agrees (hq : q.WF) (ht : IsTemplateOf t q.hydro) (v xi w : ℝ) {T : ℝ}
+    (hT : T ≠ 0) :
+    (dxiAndWdv t v (xi, w) true).2 = q.mu * w / T * (shockDE q.hydro v (xi, T) true).2 ∧
+    (dxiAndWdv t v (xi, w) false).2 = q.nu * w / T * (shockDE q.hydro v (xi, T) false).2 := by
+  have hm : q.mu - 1 ≠ 0 := by linarith [hq.mu_gt]
+  have hn : q.nu - 1 ≠ 0 := by linarith [hq.nu_gt]
+  constructor
+  · rw [dxiAndWdv_snd_eq (s := q.hydro) hT true (cs2_eq ht) (cb2_eq ht)]
+    have : (1 + 1 / (if true = true then q.hydro.csqHighT T else q.hydro.csqLowT T)) = q.mu := by
+      simp only [TPar.hydro, if_true]; field_simp; ring
+    rw [this]
+  · rw [dxiAndWdv_snd_eq (s := q.hydro) hT false (cs2_eq ht) (cb2_eq ht)]
+    have : (1 + 1 / (if false = true then q.hydro.csqHighT T else q.hydro.csqLowT T)) = q.nu := by
+      simp only [TPar.hydro, Bool.false_eq_true, ↓reduceIte]; field_simp; ring
+    rw [this]
+
+example : ∃ (q : TPar) (t : TemplP) (T : ℝ), q.WF ∧ IsTemplateOf t q.hydro ∧ T ≠ 0 :=
+  ⟨q0, t0, 1, q0_WF, t0_isTemplate, by norm_num⟩
+
+/-- T15.6c. Hence every solution `T(v)` of the general solver's temperature equation gives, through the
+EOS, a solution `w(v) = w₊(T(v))` of the template solver's enthalpy equation (shock wave), and likewise with
+`w₋` in the rarefaction wave. -/
+theorem enthalpy_solution_of_temperature_solution (hq : q.WF) (ht : IsTemplateOf t q.hydro)
+    {Tf : ℝ → ℝ} {v xi : ℝ} (hT : 0 < Tf v) :
+    (HasDerivAt Tf (shockDE q.hydro v (xi, Tf v) true).2 v →
+      HasDerivAt (fun v => q.hydro.wHighT (Tf v)) (dxiAndWdv t v (xi, q.hydro.wHighT (Tf v)) true).2 v) ∧
+    (HasDerivAt Tf (shockDE q.hydro v (xi, Tf v) false).2 v →
+      HasDerivAt (fun v => q.hydro.wLowT (Tf v)) (dxiAndWdv t v (xi, q.hydro.wLowT (Tf v)) false).2 v) := by
+  obtain ⟨e1, e2⟩ := enthalpy_equation_agrees hq ht v xi (q.hydro.wHighT (Tf v)) hT.ne'
+  obtain ⟨-, e3⟩ := enthalpy_equation_agrees hq ht v xi (q.hydro.wLowT (Tf v)) hT.ne'
+  constructor
+  · intro h
+    rw [e1]
+    exact (hasDerivAt_wH q hT).comp v h
+  · intro h
+    rw [e3]
+    exact (hasDerivAt_wL q hT).comp v h
+
+example : ∃ (q : TPar) (t : TemplP) (Tf : ℝ → ℝ) (v xi : ℝ), q.WF ∧ IsTemplateOf t q.hydro ∧ 0 < Tf v ∧
+    HasDerivAt Tf (shockDE q.hydro v (xi, Tf v) true).2 v := by
+  refine ⟨q0, t0, fun x => 1 + (shockDE q0.hydro (1 / 10) (1 / 2, 1) true).2 * (x - 1 / 10), 1 / 10,
+    1 / 2, q0_WF, t0_isTemplate, by norm_num, ?_⟩
+  have e : (1 : ℝ) + (shockDE q0.hydro (1 / 10) (1 / 2, 1) true).2 * (1 / 10 - 1 / 10) = 1 := by
+    rw [sub_self, mul_zero, add_zero]
+  simp only [e]
+  have h := (((hasDerivAt_id (1 / 10 : ℝ)).sub_const (1 / 10)).const_mul
+    (shockDE q0.hydro (1 / 10) (1 / 2, 1) true).2).const_add 1
+  simpa using h
+
+/-! ## Efficiency factor -/
+
+/-- The integrands (including the normalisation) of the two `efficiencyFactor` implementations agree: the
+template integrates `ξ²v²γ²·w/(vw³αN)` with `w` in units `w₊(Tn) = 1`, the general solver
+`ξ²v²γ²·w(T)/(vw³ w₊(Tn) αN)`. -/
+theorem kappa_integrand_agrees (hq : q.WF) (ht : IsTemplateOf t q.hydro) (xi v w vw : ℝ) :
+    kappaIntegrand xi v (w / t.wN) / (vw ^ 3 * t.alN)
+      = kappaIntegrand xi v w / (vw ^ 3 * q.hydro.wHighT q.hydro.Tnucl * t.alN) := by
+  have hw := (wN_pos hq ht).ne'
+  rw [← ht.wN]
+  unfold kappaIntegrand
+  by_cases h : vw ^ 3 * t.alN = 0
+  · rw [h, show vw ^ 3 * t.wN * t.alN = (vw ^ 3 * t.alN) * t.wN by ring, h]; simp
+  · have h' : vw ^ 3 ≠ 0 := left_ne_zero_of_mul h
+    have h'' : t.alN ≠ 0 := right_ne_zero_of_mul h
+    field_simp
+
+example : ∃ (q : TPar) (t : TemplP), q.WF ∧ IsTemplateOf t q.hydro := ⟨q0, t0, q0_WF, t0_isTemplate⟩
 
 end Props.C15
